@@ -170,14 +170,23 @@ impl Prop for C19 {
                 let mut other = single.clone();
                 other.unicode = !single.unicode;
                 let r2 = cx.compile(&other);
+                // unique-id() / random() make two runs of one input differ legitimately (found by the
+                // thorough tier: `@error "... #{unique-id()}"`): such inputs are judged per run only
+                let nondet = {
+                    let has = |t: &str| t.contains("unique-id") || t.contains("random");
+                    has(&text_lossy) || single.files.iter().any(|(_, b)| has(&String::from_utf8_lossy(&b.to_vec())))
+                };
+                if nondet {
+                    cx.class("a:nondeterministic-builtin (cross-mode comparison skipped)");
+                }
                 if let Outcome::Error(e2) = &r2.outcome {
-                    if e2.message != e.message || e2.begin != e.begin || e2.end != e.end || e2.file != e.file {
+                    if !nondet && (e2.message != e.message || e2.begin != e.begin || e2.end != e.end || e2.file != e.file) {
                         return Verdict::Fail(Failure::new("error:unicode-flag-changes-error", "message or location depends on unicode_error_messages", json!({"a": e, "b": e2})));
                     }
                     if let Err((sig, what)) = judge_error(e2, other.unicode, &entry_name, entry_text.as_deref(), &single.files) {
                         return Verdict::Fail(Failure::new(format!("error:{}", sig), what, json!({"error": e2, "input": text_lossy})));
                     }
-                } else if !r2.outcome.is_abnormal() {
+                } else if !r2.outcome.is_abnormal() && !nondet {
                     return Verdict::Fail(Failure::new("error:unicode-flag-changes-outcome", "the input fails in one message mode only", json!({"a": e, "b": r2.outcome.short()})));
                 }
                 let nt = e.kind == "parse" && (e.begin.line > 0 || e.file != entry_name || !text_lossy.is_ascii());
